@@ -143,8 +143,31 @@ def historyFlags (tr : List Tr) : List String :=
   let fq := tr.any fun t => match t with | .forceQuit => true | _ => false
   -- K5: the hypotheses of `C06_order_within_level` (Props/C06b.lean), decided on the history itself (newest first): a successful InputReadySignal
   -- was pending in a covered level (`NoReadyCovered` fails), or one was taken while an earlier one was on its way to its handler (`NoReadyReentry` fails)
-  let held := !decide (NoReadyCovered tr.reverse)
-  let reentry := !decide (NoReadyReentry tr.reverse)
+  -- (linear folds over the oldest-first history; for short histories they are cross-checked against the Spec's own decision procedures)
+  let cov := tr.foldl (fun (st : List Nat × List (Nat × Nat) × Bool) t =>
+      let (levels, counts, bad) := st
+      let get (q : Nat) : Nat := ((counts.find? (·.1 = q)).map (·.2)).getD 0
+      let set (q n : Nat) : List (Nat × Nat) := (q, n) :: counts.filter (·.1 ≠ q)
+      let (levels, counts) := match t with
+        | .openLevel q _ => (levels ++ [q], counts)
+        | .closeLevel _ => (levels.dropLast, counts)
+        | .forceQuit => ([], counts)
+        | .enq q s => (levels, if s.okReady then set q (get q + 1) else counts)
+        | .take q s => (levels, if s.okReady then set q (get q - 1) else counts)
+        | _ => (levels, counts)
+      let free := levels.dropLast.all fun q => ((counts.find? (·.1 = q)).map (·.2)).getD 0 == 0
+      (levels, counts, bad || !free)) ([0], [], false)
+  let heldFold := cov.2.2
+  let re := tr.foldl (fun (st : Bool × Bool) t =>
+      match t with
+      | .take _ s => if s.okReady then (true, st.2 || st.1) else st
+      | .call (.ih n) _ s => if s.okReady && s.ih == n then (false, st.2) else st
+      | _ => st) (false, false)
+  let reentryFold := re.2
+  let short := tr.length ≤ 400
+  let held := if short then !decide (NoReadyCovered tr.reverse) else heldFold
+  let reentry := if short then !decide (NoReadyReentry tr.reverse) else reentryFold
+  let flagBug := short && (held != heldFold || reentry != reentryFold)
   -- K6: a modal entry was popped by close_screen and an ordinary exception (RenderUnexpectedError, a failing closed()) prevented its close_loop
   let k6 := (tr.foldl (fun (st : List Entry × Bool × Bool) t =>
       match t with
@@ -154,7 +177,7 @@ def historyFlags (tr : List Tr) : List String :=
       | .closeLevel _ => (st.1, false, st.2.2)
       | .enq _ s => if s.cls == .exception && st.2.1 then (st.1, st.2.1, true) else st
       | _ => st) ([], false, false)).2.2
-  (if k6 then ["K6"] else []) ++ (if k1a || k1b then ["K1"] else []) ++ (if k2 then ["K2"] else []) ++ (if fq then ["forceQuit"] else []) ++ (if held then ["K5"] else []) ++ (if reentry then ["K5r"] else [])
+  (if k6 then ["K6"] else []) ++ (if k1a || k1b then ["K1"] else []) ++ (if k2 then ["K2"] else []) ++ (if fq then ["forceQuit"] else []) ++ (if held then ["K5"] else []) ++ (if reentry then ["K5r"] else []) ++ (if flagBug then ["FLAG-FOLD-MISMATCH"] else [])
 
 /-- C20: the `Calm` clauses evaluated on the MainLoop machine's trace (oldest first); the result lists the violated clauses -/
 structure CalmSt where
